@@ -29,4 +29,13 @@ LEVEL = {
            "flags, both framings), C13_version, C13_type_pairs_agree + tables_type_compat (writer, reader and spec agree on the "
            "whole 4x8 table, regenerated from the live code), C13_writer_rejects, reader rejections (names<8, >4096, version>2), "
            "C13_strict_gates, C13_logical_type_irrelevant(_state), C13_infer_flow_table + tables_stream_new.",
+    "C04": "Theorem C04_decoder_refines_spec: for ALL row sequences (hence every legal producer, not the outputs of some encoder) "
+           "that the reference decoder Spec.runRows accepts with denotation evs, the model of pyjelly's Decoder set up from the "
+           "first options row delivers exactly evs in order without raising (simulation relation = equal tables/delta bases/"
+           "repeated terms/open graph; induction over rows and over nested terms). Row level; framing is C07, non-canonical "
+           "protobuf encodings are upb behaviour covered by the wire-parse model + correspondence only.",
+    "C16": "Theorems C16_rejects_at_offending_row (every catalogued violation after a valid prefix makes the decoder raise AT that "
+           "row, having delivered exactly the denotation of the valid prefix) and C16_bad_header_rejected (missing options row, "
+           "unsupported physical type, version > 2, names < 8, tables > 4096 never yield an event). Two classes were genuine "
+           "defects, repaired by fix: commits (triple outside a graph; datatype reference with a disabled table).",
 }
